@@ -8,7 +8,7 @@ Require Import ZArith Reals List.
 From Flocq Require Import Core BinarySingleNaN.
 From Dasp Require Import Base.Res Base.Float Ring.Fixed Ring.FixedSpec Dsp.Rms Dsp.Sqrt Dsp.RmsInst
   Dsp.RmsProofs Dsp.RmsIeee Dsp.RmsErr Dsp.RmsErrProofs Dsp.SqrtReal Dsp.SqrtProofs Dsp.RmsExamples
-  Dsp.RmsDrift Dsp.RmsDriftProofs Dsp.RmsOutProofs.
+  Dsp.RmsDrift Dsp.RmsDriftProofs Dsp.RmsOutProofs Dsp.RmsVerdictProofs.
 From Flocq Require Import Calc.Operations.
 From DaspGen Require Import SqrtMagic.
 Import ListNotations.
@@ -227,6 +227,29 @@ Theorem c11_output_bound_f64 : forall (N C fst0 : nat) (ops : list (op NumF64std
        + 3 * R_sqrt.sqrt (F2R (eta_of 53 1024)))%R.
 Proof. exact out_bound_f64. Qed.
 Print Assumptions c11_output_bound_f64.
+
+(* the verdict of the correspondence, as a theorem about the model: on every such run the executable
+   verdict [e_verdict] (RmsErr.v; RmsRun.verdict applies it to the events of each channel: every
+   pushed sample with the sum stored after it, [sobs]) accepts.  Hence a verdict failure of the check
+   on the model run cannot come from the model, and "crate = model bit for bit" is what carries the
+   bound to the crate. *)
+Theorem c11_verdict_accepts_model_f32 : forall (sq : f32 -> f32) (N C fst0 : nat) (ops : list (op (NumF32 sq))),
+  (1 <= N)%nat -> (fst0 < N)%nat -> Forall (opK_ok (NumF32 sq) C) ops ->
+  sums_ok (NumF32 sq) F32.is_finite (new_stateK (NumF32 sq) N C fst0) ops = true ->
+  forall c, (c < C)%nat ->
+    e_verdict (u_of 24) (eta_of 24 128) N (e_init N)
+      (sobs (NumF32 sq) B2Dy (clamp (NumF32 sq)) N (sreset (NumF32 sq) N) (chan_evs (NumF32 sq) c ops)) = true.
+Proof. exact verdict_model_f32. Qed.
+Print Assumptions c11_verdict_accepts_model_f32.
+
+Theorem c11_verdict_accepts_model_f64 : forall (sq : f64 -> f64) (N C fst0 : nat) (ops : list (op (NumF64 sq))),
+  (1 <= N)%nat -> (fst0 < N)%nat -> Forall (opK_ok (NumF64 sq) C) ops ->
+  sums_ok (NumF64 sq) F64.is_finite (new_stateK (NumF64 sq) N C fst0) ops = true ->
+  forall c, (c < C)%nat ->
+    e_verdict (u_of 53) (eta_of 53 1024) N (e_init N)
+      (sobs (NumF64 sq) B2Dy (clamp (NumF64 sq)) N (sreset (NumF64 sq) N) (chan_evs (NumF64 sq) c ops)) = true.
+Proof. exact verdict_model_f64. Qed.
+Print Assumptions c11_verdict_accepts_model_f64.
 
 (* the real-number core of the drift bound (kept from the earlier partial result): one step of the
    executable recurrence [e_next] (including its upward rounding to 64 bits) is sound for the
